@@ -187,6 +187,7 @@ func (c *Ctx) callStatic(st *State, x *ast.CallExpr, fn *types.Func, recvExpr as
 	if recvExpr != nil {
 		recv = c.evalReceiver(st, recvExpr, fn, sel)
 	}
+	c.checkAtCall(st, x, fn)
 	if h, ok := prelude[name]; ok {
 		return h(c, st, x, recv)
 	}
